@@ -405,6 +405,20 @@ fn gen_stem(rng: &mut Rng) -> String {
         let set = if (up + i) % 2 == 0 { CONS } else { VOWS };
         s.push((*rng.pick(set) as char).to_ascii_lowercase());
     }
+    // IEEE 488.2 mnemonics may contain '_' (not as first character)
+    // Only between two upper-case or two lower-case letters: whether a '_' sitting exactly between
+    // the short-form part and the long-form tail belongs to the short form is not fixed by the
+    // statements (the library treats it as part of the optional tail).
+    if rng.chance(1, 10) && s.len() >= 3 && s.len() < 11 {
+        let b = s.as_bytes();
+        let spots: Vec<usize> = (1..s.len())
+            .filter(|i| b[i - 1].is_ascii_uppercase() == b[*i].is_ascii_uppercase())
+            .collect();
+        if !spots.is_empty() {
+            let at = *rng.pick(&spots);
+            s.insert(at, '_');
+        }
+    }
     s
 }
 
